@@ -161,6 +161,21 @@ Example C11_witness_dlf_literal_case_sensitive :
   f_payload_as_regex f = None /\ payload_crit f = Some (PLiteral [102; 111; 111]).
 Proof. vm_compute. split; reflexivity. Qed.
 
+(* why the round trip is stated for printable-ASCII ids: DltChar4 is written through its Display, which shows a
+   control character as '-' — a list-format filter for the apid "A\x01BC" comes back as a filter for "A-BC" *)
+Example C11_json_roundtrip_needs_printable_ids :
+  exists f f' m,
+    In f (from_convert_format [65; 1; 66; 67; 32; 67; 84; 73; 68; 32]) /\
+    from_json_kv ex_valid (JObject (to_json_kv f)) = Some f' /\
+    matches ex_re f m = true /\ matches ex_re f' m = false.
+Proof.
+  eexists. eexists.
+  exists {| m_ecu := (69, 67, 85, 49);
+            m_ext := Some {| e_vmm := 65; e_apid := (65, 1, 66, 67); e_ctid := (67, 84, 73, 68) |};
+            m_text := None; m_lc := 0 |}.
+  split; [vm_compute; left; reflexivity|]. split; [vm_compute; reflexivity|]. split; vm_compute; reflexivity.
+Qed.
+
 Print Assumptions C11_matches_spec.
 Print Assumptions C11_no_ext_header_fails_id_type_level.
 Print Assumptions C11_substring_spec.
@@ -173,3 +188,4 @@ Print Assumptions C11_json_roundtrip_shape.
 Print Assumptions C11_nonvacuous.
 Print Assumptions C11_witness_mstp_is_serialised.
 Print Assumptions C11_witness_dlf_literal_case_sensitive.
+Print Assumptions C11_json_roundtrip_needs_printable_ids.
